@@ -86,3 +86,66 @@ def commute_mult(src: str, qual: str) -> str:
         return None
     _Commute().visit(fn)
     return ast.unparse(ast.fix_missing_locations(tree))
+
+
+_MIRROR = {ast.Lt: ast.Gt, ast.Gt: ast.Lt, ast.LtE: ast.GtE, ast.GtE: ast.LtE, ast.Eq: ast.Eq, ast.NotEq: ast.NotEq}
+
+
+class _SwapCompare(ast.NodeTransformer):
+    def __init__(self):
+        self.n = 0
+
+    def visit_Compare(self, node):
+        self.generic_visit(node)
+        if len(node.ops) == 1 and type(node.ops[0]) in _MIRROR:
+            # `x is None`-style tests and chained comparisons are left alone
+            node.left, node.comparators[0] = node.comparators[0], node.left
+            node.ops = [_MIRROR[type(node.ops[0])]()]
+            self.n += 1
+        return node
+
+
+def swap_compare(src: str, qual: str) -> str:
+    """`a < b` -> `b > a`, `a == b` -> `b == a` ... in function `qual` (operands are pure expressions in this code base)."""
+    tree = ast.parse(src)
+    fn = _func(tree, qual)
+    if fn is None:
+        return None
+    t = _SwapCompare()
+    t.visit(fn)
+    if not t.n:
+        return None
+    return ast.unparse(ast.fix_missing_locations(tree))
+
+
+class _FlipIf(ast.NodeTransformer):
+    def __init__(self):
+        self.n = 0
+
+    def visit_If(self, node):
+        self.generic_visit(node)
+        if node.orelse and not (len(node.orelse) == 1 and isinstance(node.orelse[0], ast.If)):
+            node.test = ast.UnaryOp(op=ast.Not(), operand=node.test)
+            node.body, node.orelse = node.orelse, node.body
+            self.n += 1
+        return node
+
+    def visit_IfExp(self, node):
+        self.generic_visit(node)
+        node.test = ast.UnaryOp(op=ast.Not(), operand=node.test)
+        node.body, node.orelse = node.orelse, node.body
+        self.n += 1
+        return node
+
+
+def flip_if(src: str, qual: str) -> str:
+    """`if c: A else: B` -> `if not c: B else: A` (also conditional expressions) in function `qual`."""
+    tree = ast.parse(src)
+    fn = _func(tree, qual)
+    if fn is None:
+        return None
+    t = _FlipIf()
+    t.visit(fn)
+    if not t.n:
+        return None
+    return ast.unparse(ast.fix_missing_locations(tree))
